@@ -78,6 +78,27 @@ def doCalls (s : St Float) (calls : List String) : List Rec := Id.run do
       out := out ++ pr ++ (if failed then [Rec.mk' "callerr"] else acts ++ [Rec.mk' "ultdone"])
   return out
 
+/-- the `world` field of an eval op (see harness/gcsworld.go) -/
+def parseWorld (w : String) : World Float :=
+  if w == "" || w == "-" then {} else
+  let parts := w.splitOn "/"
+  let sp : Int := (parts.findSome? fun p => if p.startsWith "sp:" then (p.drop 3).toString.toInt? else none).getD 0
+  let sub (x : String) : List String := if x == "" then [] else x.splitOn "|"
+  let units := parts.filterMap fun p =>
+    if !p.startsWith "u:" then none else
+    match (p.drop 2).toString.splitOn "." with
+    | [id, cls, alive, key, en, men, hp, st, mst, sh, shields, mods, status, weak, skill, elem, adj] =>
+      some ({ id := id.toInt?.getD 0, cls := if cls == "c" then 0 else if cls == "e" then 1 else 2, alive := alive == "1",
+              key := txt key, energy := (Wire.parseF en).getD 0, maxEnergy := (Wire.parseF men).getD 0, hp := (Wire.parseF hp).getD 0,
+              stance := (Wire.parseF st).getD 0, maxStance := (Wire.parseF mst).getD 0, shielded := sh == "1",
+              shields := (sub shields).map txt, mods := (sub mods).map txt,
+              status := (sub status).filterMap (fun kv => match kv.splitOn ":" with
+                | [k, c] => some (k.toInt?.getD 0, c.toInt?.getD 0) | _ => none),
+              weak := (sub weak).filterMap String.toInt?, skill := (skill.toNat?).getD 0, elem := elem.toInt?.getD 0,
+              adj := (sub adj).filterMap String.toInt? } : WUnit Float)
+    | _ => none
+  { sp := sp, units := units }
+
 def evalStep (u : Unit) (r : Rec) : Unit × List Rec × List String :=
   let input := parseRunes r
   match lexAll input with
@@ -87,8 +108,10 @@ def evalStep (u : Unit) (r : Rec) : Unit × List Rec × List String :=
     | .fuel => (u, [Rec.mk' "nofuel"], [])
     | .err => (u, [Rec.mk' "perr"], ["perr"])
     | .ok prog _ =>
-      let s0 : St Float := initSt (r.flts "draws")
-      match evalSeq mkFloat evalFuel s0 0 prog with
+      let s0 : St Float := initSt (r.flts "draws") (parseWorld (r.str "world"))
+      -- `Init` evaluates the program as a block: in a scope of its own below the global one, so a
+      -- program may shadow builtins and evaluator constants
+      match evalBlock mkFloat evalFuel s0 0 prog with
       | .fuel => (u, [Rec.mk' "nofuel"], [])
       | .err _ se => (u, se.printed.reverse.map printedRec ++ [(Rec.mk' "init").addI "ok" 0], ["eval", "init-err"])
       | .ok _ s1 =>
@@ -100,7 +123,8 @@ def evalStep (u : Unit) (r : Rec) : Unit × List Rec × List String :=
         let pr := rest.filter (·.name == "p")
         let others := rest.filter (·.name != "p")
         (u, printedInit ++ pr ++ [(Rec.mk' "init").addI "ok" 1] ++ others,
-          ["eval", "init-ok"] ++ (if calls.isEmpty then [] else ["calls"]) ++ (if s1.printed.length > 3 then ["prints>3"] else []))
+          ["eval", "init-ok"] ++ (if calls.isEmpty then [] else ["calls"]) ++ (if s1.printed.length > 3 then ["prints>3"] else [])
+            ++ (if r.has "world" then ["world"] else []))
 
 /-- C12 on an implementation trace: no crash / hang, and values, output and decisions are those of
 the language semantics (the evaluator model) -/
